@@ -182,10 +182,21 @@ class _Ev:
         if isinstance(n, (ast.Tuple, ast.List)):
             return tuple(self.ev(e) for e in n.elts)
         if isinstance(n, ast.Call):
+            f = n.func
+            if isinstance(f, ast.Attribute) and isinstance(f.value, ast.Name) and f.value.id in ("np", "numpy") \
+                    and f.attr in ("format_float_positional", "format_float_scientific", "float64", "float32", "float16", "format_float"):
+                # numpy's own scalar formatters / casts (pure functions of the number): evaluated with the tooling venv's numpy
+                import numpy as _np
+                try:
+                    kw = {k.arg: self.ev(k.value) for k in n.keywords}
+                    return getattr(_np, f.attr)(*[self.ev(a) for a in n.args], **kw)
+                except NotPure:
+                    raise
+                except Exception as e:
+                    raise NotPure(f"numpy formatter {e}")
             if n.keywords:
                 raise NotPure("keywords")
             args = [self.ev(a) for a in n.args]
-            f = n.func
             try:
                 if isinstance(f, ast.Name) and f.id in _FUNCS:
                     return _FUNCS[f.id](*args)
